@@ -280,18 +280,22 @@ package proxy
 //@ func protectSignedHeaders(h http.Header)
 //@   modifies hdrmap(h)
 //@   ensures [C12 C03] no_signed_header_is_named_in_connection: forall i, k :: 0 <= i && i < len(h["Connection"]) && 0 <= k && k < len(signedHeaders) ==> !connNames(h["Connection"][i], signedHeaders[k])
+//@   ensures [C12] no_signature_header_is_named_in_connection: forall i :: 0 <= i && i < len(h["Connection"]) ==> !connNames(h["Connection"][i], "Sso-Signature") && !connNames(h["Connection"][i], "Kid") && !connNames(h["Connection"][i], "Gap-Signature")
 //@   ensures [C12 C03] other_headers_untouched: forall n string :: n != "Connection" ==> (n in h) == old(n in h) && h[n] == old(h[n])
 //@   ensures [C12] absent_stays_absent: !old("Connection" in h) ==> !("Connection" in h)
 //@   loop 1
+//@     invariant forall i :: 0 <= i && i < len(kept) ==> !connNames(kept[i], "Sso-Signature") && !connNames(kept[i], "Kid") && !connNames(kept[i], "Gap-Signature")
 //@     invariant len(kept) >= 0
 //@     invariant forall i, k :: 0 <= i && i < len(kept) && 0 <= k && k < len(signedHeaders) ==> !connNames(kept[i], signedHeaders[k])
 //@   loop 2
+//@     invariant forall i :: 0 <= i && i < len(kept) ==> !connNames(kept[i], "Sso-Signature") && !connNames(kept[i], "Kid") && !connNames(kept[i], "Gap-Signature")
 //@     invariant len(kept) >= 0
 //@     invariant forall i, k :: 0 <= i && i < len(kept) && 0 <= k && k < len(signedHeaders) ==> !connNames(kept[i], signedHeaders[k])
 //@   loop 3
+//@     invariant forall i :: 0 <= i && i < len(kept) ==> !connNames(kept[i], "Sso-Signature") && !connNames(kept[i], "Kid") && !connNames(kept[i], "Gap-Signature")
 //@     invariant len(kept) >= 0
 //@     invariant forall i, k :: 0 <= i && i < len(kept) && 0 <= k && k < len(signedHeaders) ==> !connNames(kept[i], signedHeaders[k])
-//@     invariant !signed ==> (forall k :: 0 <= k && k < $i ==> canonhdr(token) != signedHeaders[k])
+//@     invariant !signed ==> (forall k :: 0 <= k && k < $i ==> canonhdr(token) != signedHeaders[k]) && canonhdr(token) != "Sso-Signature" && canonhdr(token) != "Kid" && canonhdr(token) != "Gap-Signature"
 
 // The director runs on the outgoing copy after signing. For a bare-host target (no path, no query — every
 // documented `to`) it leaves path and query as signed; it changes no covered header; and afterwards no covered
@@ -301,6 +305,7 @@ package proxy
 //@   ensures [C12] bare_target_keeps_path_and_query: target.Path == "" && target.RawQuery == "" && hasPrefix(old(req.URL.Path), "/") ==> req.URL.Path == old(req.URL.Path) && req.URL.RawQuery == old(req.URL.RawQuery)
 //@   ensures [C12] covered_headers_untouched: forall n string :: n != "Connection" && n != "User-Agent" && n != "X-Forwarded-Host" ==> (n in req.Header) == old(n in req.Header) && req.Header[n] == old(req.Header[n])
 //@   ensures [C12 C03] no_covered_header_is_hop_by_hop: forall i, k :: 0 <= i && i < len(req.Header["Connection"]) && 0 <= k && k < len(signedHeaders) ==> !connNames(req.Header["Connection"][i], signedHeaders[k])
+//@   ensures [C12] no_signature_header_is_hop_by_hop: forall i :: 0 <= i && i < len(req.Header["Connection"]) ==> !connNames(req.Header["Connection"][i], "Sso-Signature") && !connNames(req.Header["Connection"][i], "Kid") && !connNames(req.Header["Connection"][i], "Gap-Signature")
 //@   ensures [C12] body_untouched: req.Body == old(req.Body)
 
 // The documented <URL> line does not determine path, query and fragment: a '?' or '#' inside the (decoded) path
